@@ -15,6 +15,7 @@ func init() {
 		Explanation: "Confinement in goatcore is a lexical mechanism (varutil.ReduceAbsPath). Decided for every string parameter of every method of every type implementing filesystem.Filespace (discovered through the type checker), on all paths: R1 a parameter-derived string that is joined behind a non-constant prefix (a rebased view: base+arg) at any call argument or field store has passed ReduceAbsPath with its error checked on that path — path.Clean/CleanPath are not accepted since they keep a leading '..'; forwarders may pass a parameter on unchanged; R2 the argument that becomes the base of a child view (constructor call or base-path field store in every Filespace(sub) method) is reduced in the method or by the constructor it is handed to (constructor summary computed with the same analysis); R4 every path handed to an os / io/ioutil / filepath.Walk / package disk function from an implementer starts with the receiver's root field and its parameter part is reduced; R5 the memory tree has no parent pointers and traversals start at the root; R6 inside ReduceAbsPath the decrement for '..' is guarded by resultLen != 0 and the zero edge returns a non-nil error; R7 every value stored into a view's base-path field ends with the separator its methods rely on when they form base+name. " +
 			"R8 memfs copies share no node with their source (copyFile/copyDir return newly built nodes on every path), so a view writing its copy cannot change the rest of the parent tree; R9 path parameters pass no byte-altering string function in any implementer package or normaliser (a view rooted at '.conf' must not become 'conf'); R10 every ReduceAbsPath call sees the caller-supplied part alone, never prefix+argument (reducing the joined path lets '..' consume the view's own base). " +
 			"Added in round 4: R11 where a view's base path is set, a caller-supplied part is appended to an existing prefix (the parent view's base) only after ReduceAbsPath accepted it — flattening nested views as parent.base + Clean(arg) lets a '..' consume the parent's base; R12 (who-may-call) inside the filesystem packages only filesystem/disk and filesystem/filespace/diskfs hand paths to host primitives (os, io/ioutil, filepath.Walk...): a cache or view that writes to the local disk itself bypasses the backend's reducer. " +
+			"Added in round 7: R13 every path a view hands to the filespace below is computed in that call from the view's base and the argument - no origin of it is a table load (sync.Map.Load, map lookup): a memo keyed by the argument alone is inherited by derived views and answers with locations under the other view's base; a table that is provably private to one base (fresh at every install, bases only set on composite literals that are not copies of a view) is accepted. " +
 			"NOT decided: symbolic links on disk (confinement is lexical), byte-identity of the rest of the parent tree, the behaviour of user-supplied inner filespaces.",
 		Assumptions: []string{"a string built only from constants, receiver fields and reduced parameters cannot contain a climbing '..' segment (receiver base fields are themselves set by constructors checked under R2)"}})
 }
@@ -121,6 +122,9 @@ func rulesC03(c *Ctx) {
 	c.Floor("R12", ruleHostOnlyFromDisk(c, "R12"), 10)
 	// ---- R11 a view's base is extended only by reduced parts ----
 	c.Floor("R11", ruleViewBaseJoin(c, "R11", iface, impls), 4)
+
+	// ---- R13 a view computes the forwarded path in the call itself ----
+	c.Floor("R13", ruleViewPathComputed(c, "R13", iface, impls), 10)
 
 	// ---- R8 copies share no node with their source (the rest of the tree stays byte-identical) ----
 	ruleDeepCopyAs(c, "R8")
@@ -671,4 +675,142 @@ func ruleHostOnlyFromDisk(c *Ctx, rule string) int {
 		}
 	}
 	return n
+}
+
+// ruleViewPathComputed (R13): a view translates a path afresh on every call: the path it hands to
+// the filespace below is computed from the view's own base and the call's argument, never taken
+// from a lookup table.  A table keyed by the argument alone that a derived view inherits (a copied
+// struct keeps the pointer) answers with the location computed for the other view's base: the
+// child reads and lists nodes outside its own root.
+func ruleViewPathComputed(c *Ctx, rule string, iface *types.Interface, impls []*types.Named) int {
+	n := 0
+	for _, T := range impls {
+		st0, base := viewBaseFields(c, iface, T)
+		if len(base) == 0 {
+			continue
+		}
+		var names []string
+		ms := c.P.MethodsOf(T, iface)
+		for mn := range ms {
+			names = append(names, mn)
+		}
+		sort.Strings(names)
+		for _, mn := range names {
+			f := ms[mn]
+			if f == nil || f.Blocks == nil {
+				continue
+			}
+			bad := ""
+			var pos token.Pos
+			calls := 0
+			for _, ci := range Calls(f) {
+				if ci.Method == nil || ci.Kind != "call" {
+					continue
+				}
+				if _, isIface := iface.Complete().Underlying().(*types.Interface); !isIface {
+					continue
+				}
+				if obj, _, _ := types.LookupFieldOrMethod(iface, false, ci.Method.Pkg(), ci.Method.Name()); obj == nil {
+					continue
+				}
+				for _, a := range ci.Common.Args {
+					if !isStringy(a.Type()) {
+						continue
+					}
+					calls++
+					for _, o := range Origins(a, FlowOpts{Interproc: 2}) {
+						fromTable := o.Kind == "call" && strings.Contains(o.Name, "sync.(Map).Load")
+						for _, st := range o.Path {
+							if st == "lookup" {
+								fromTable = true
+							}
+						}
+						if fromTable && !tablePrivateToView(c, st0, base, o) {
+							bad, pos = "the path handed to "+ci.Method.Name()+" of the filespace below is taken from a table ("+o.String()+")", ci.Pos()
+						}
+					}
+				}
+			}
+			if calls == 0 {
+				continue
+			}
+			n++
+			c.Check(bad == "", rule, fmt.Sprintf("%s.%s computes the path it forwards", implName(T), mn), orPos(pos, f.Pos()), "base + reduced argument, computed in this call",
+				bad+" instead of being computed from this view's base and the argument — a view derived from this one inherits the table and is answered with locations under the other view's base (outside its own root)")
+		}
+	}
+	return n
+}
+
+// tablePrivateToView: the table behind origin o is a field of the view struct st, and no view value
+// ever carries it together with a base other than the one its entries were computed for: every store
+// to a base field of st is made on an object under construction (a composite literal) that is not a
+// copy of an existing view, and every store to the table field stores a freshly made table.  Then a
+// memo keyed by the argument is a pure function of the argument for the life of the view.
+func tablePrivateToView(c *Ctx, st *types.Struct, base map[int]bool, o Origin) bool {
+	// which field is the table?
+	var tv ssa.Value
+	switch x := o.Val.(type) {
+	case *ssa.Call:
+		if len(x.Call.Args) > 0 {
+			tv = x.Call.Args[0]
+		}
+	default:
+		tv = o.Val
+	}
+	for i := 0; i < 4 && tv != nil; i++ {
+		if u, ok := tv.(*ssa.UnOp); ok && u.Op == token.MUL {
+			tv = u.X
+			continue
+		}
+		if l, ok := tv.(*ssa.Lookup); ok {
+			tv = l.X
+			continue
+		}
+		break
+	}
+	tfa, ok := tv.(*ssa.FieldAddr)
+	if !ok || structOf(tfa.X.Type()) != st {
+		return false
+	}
+	tfi := tfa.Field
+	fresh := func(v ssa.Value) bool {
+		switch y := unwrapChange(resolve(v)).(type) {
+		case *ssa.Alloc, *ssa.MakeMap:
+			_ = y
+			return true
+		}
+		return false
+	}
+	private := true
+	for _, f := range c.P.AllModuleFuncs() {
+		eachInstr(f, func(_ *ssa.BasicBlock, _ int, in ssa.Instruction) {
+			s, ok := in.(*ssa.Store)
+			if !ok {
+				return
+			}
+			fa, ok := s.Addr.(*ssa.FieldAddr)
+			if !ok || structOf(fa.X.Type()) != st {
+				return
+			}
+			switch {
+			case fa.Field == tfi:
+				if !fresh(s.Val) {
+					private = false // the table of another view (or anything else) is installed
+				}
+			case base[fa.Field]:
+				a, isA := fa.X.(*ssa.Alloc)
+				if !isA {
+					private = false // the base of an existing view changes under its table
+					return
+				}
+				for _, r := range *a.Referrers() {
+					if ws, isS := r.(*ssa.Store); isS && ws.Addr == ssa.Value(a) {
+						private = false // the object is a copy of an existing view: it keeps that view's table
+					}
+				}
+			}
+		})
+	}
+	return private
 }
